@@ -206,10 +206,20 @@ func (r *resolver) ResolveFunction(s string, f *parser.Function) (err error) {
 		if err := r.ResolveType(v.Type); err != nil {
 			return fmt.Errorf("resolve argument %q of %q of %q: %w from file %s", v.Name, f.Name, s, err, r.ast.Filename)
 		}
+		if v.IsSetDefault() {
+			if err := r.ResolveConstValue(v.Default); err != nil {
+				return fmt.Errorf("resolve default value of argument %q of %q of %q: %w from file %s", v.Name, f.Name, s, err, r.ast.Filename)
+			}
+		}
 	}
 	for _, v := range f.Throws {
 		if err := r.ResolveType(v.Type); err != nil {
 			return fmt.Errorf("resolve exception %q of %q of %q: %w from file %s", v.Name, f.Name, s, err, r.ast.Filename)
+		}
+		if v.IsSetDefault() {
+			if err := r.ResolveConstValue(v.Default); err != nil {
+				return fmt.Errorf("resolve default value of exception %q of %q of %q: %w from file %s", v.Name, f.Name, s, err, r.ast.Filename)
+			}
 		}
 	}
 	return
